@@ -140,6 +140,9 @@ class Analyzer:
             self.error_rate = self._calculate_error_rate(
                 probs, inputs, filtered_outputs, expected
             )
+        # Otherwise remove any value from a previous analysis
+        elif hasattr(self, "error_rate"):
+            del self.error_rate
         # Compile results into results object
         results = SimulationResult(
             probs,
